@@ -1401,6 +1401,7 @@ stream_decode_mt(void *coder_ptr, const lzma_allocator *allocator,
 		// that can be used as is. We ensured this in the above
 		// if-block.
 		uint64_t mem_freed = 0;
+		struct worker_thread *thr_kept = NULL;
 		if (thr != NULL && mem_in_use + mem_cached
 				+ coder->outq.mem_in_use > mem_max) {
 			// Don't free the first Block decoder if its memory
@@ -1409,8 +1410,10 @@ stream_decode_mt(void *coder_ptr, const lzma_allocator *allocator,
 			// Blocks so this way the allocations can be reused
 			// when get_thread() picks the first worker_thread
 			// from the cache.
-			if (thr->mem_filters <= coder->mem_next_filters)
+			if (thr->mem_filters <= coder->mem_next_filters) {
+				thr_kept = thr;
 				thr = thr->next;
+			}
 
 			while (thr != NULL) {
 				lzma_next_end(&thr->block_decoder, allocator);
@@ -1453,6 +1456,23 @@ stream_decode_mt(void *coder_ptr, const lzma_allocator *allocator,
 		if (ret != LZMA_OK) {
 			threads_stop(coder);
 			return ret;
+		}
+
+		// If a worker thread became free after we looked at
+		// coder->threads_free above, get_thread() picked it instead
+		// of the thread whose Block decoder we kept for reuse. Then
+		// a new Block decoder will be allocated, so the kept one
+		// must be freed now to stay within the memory limits. The
+		// kept thread is still in the cache because only this
+		// function takes threads from there.
+		if (thr_kept != NULL && thr_kept != coder->thr) {
+			lzma_next_end(&thr_kept->block_decoder, allocator);
+
+			mythread_sync(coder->mutex) {
+				coder->mem_cached -= thr_kept->mem_filters;
+			}
+
+			thr_kept->mem_filters = 0;
 		}
 
 		// The new Block decoder memory usage is already counted in
